@@ -100,8 +100,8 @@ type bhost struct {
 	step   int
 	log    []string
 
-	firedNow    []*bfault       // faults fired during the current step
-	detachedNow map[*mbuf]bool  // buffers detached by a fault during the current step
+	firedNow    []*bfault      // faults fired during the current step
+	detachedNow map[*mbuf]bool // buffers detached by a fault during the current step
 	allowed     map[*mbuf][]brange
 	lastSpecies *goja.Object
 	stale       []staleRec
@@ -300,9 +300,10 @@ func (h *bhost) speciesHook(call goja.FunctionCall) goja.Value {
 		case bfSpShrink:
 			if reqLen > 0 && (lenForm || len(av) == 3) {
 				a := append([]goja.Value(nil), av...)
-				a[len(a)-1] = h.rt.ToValue(reqLen - 1 - (f.param%2)*(reqLen-1))
+				n2 := reqLen - 1 - (f.param%2)*(reqLen-1)
+				a[len(a)-1] = h.rt.ToValue(n2)
+				h.markFired(f, fmt.Sprintf("species constructor returned length %d instead of %d", n2, reqLen))
 				out = mk(et, a...)
-				h.markFired(f, fmt.Sprintf("species constructor returned length %d instead of %d", out.Get("length").ToInteger(), reqLen))
 			}
 		case bfSpDetached:
 			out = mk(et, av...)
@@ -311,8 +312,8 @@ func (h *bhost) speciesHook(call goja.FunctionCall) goja.Value {
 			}
 		case bfSpRetype:
 			et2 := (et + 1 + f.param%(nElemTypes-1)) % nElemTypes
-			out = mk(et2, av...)
 			h.markFired(f, "species constructor returned a "+etName[et2]+"Array")
+			out = mk(et2, av...)
 		case bfSpAlias:
 			if lenForm {
 				// a view over a host-owned slab buffer, ending exactly at the end of the buffer when it fits
@@ -324,9 +325,9 @@ func (h *bhost) speciesHook(call goja.FunctionCall) goja.Value {
 					sz := etSize[et]
 					n := min(reqLen, len(b.data)/sz)
 					off := (len(b.data) - n*sz) / sz * sz
-					out = mk(et, h.bufs[b.id].obj, h.rt.ToValue(off), h.rt.ToValue(n))
 					h.allow(b, off, off+n*sz)
 					h.markFired(f, fmt.Sprintf("species constructor returned a view over %s at byte %d, length %d (requested %d)", bname(b.id), off, n, reqLen))
+					out = mk(et, h.bufs[b.id].obj, h.rt.ToValue(off), h.rt.ToValue(n))
 					break
 				}
 			}
@@ -457,7 +458,7 @@ func (h *bhost) descObject(o *goja.Object) string {
 	n := int(o.Get("length").ToInteger())
 	var sb strings.Builder
 	fmt.Fprintf(&sb, "%s%s[%s,off=%d,len=%d,buf=%d]{", prefix, name, h.bufTagOf(bufObj), o.Get("byteOffset").ToInteger(), n, bl)
-	for i := 0; i < n && i < 80; i++ {
+	for i := 0; i < n && i < 1100; i++ {
 		if i > 0 {
 			sb.WriteByte(',')
 		}
@@ -1118,7 +1119,7 @@ func genBufWork(W *core.Track) *bwork {
 		case 2:
 			s.n = 64
 		case 3:
-			s.n = 0
+			s.n = 8 * W.Draw(9) // 0..64 in steps of 8
 		case 4:
 			s.n = 32
 		case 5:
@@ -1152,7 +1153,10 @@ func genBufWork(W *core.Track) *bwork {
 		sz := etSize[v.et]
 		maxE := bl / sz
 		oe := 0
-		if W.Draw(3) != 0 {
+		switch W.Draw(4) {
+		case 1, 2:
+			oe = W.Draw(maxE/2 + 1)
+		case 3:
 			oe = W.Draw(maxE + 1)
 		}
 		v.off = oe * sz
@@ -1177,6 +1181,11 @@ func genBufWork(W *core.Track) *bwork {
 			b.dirty = b.dirty[:0]
 		}
 		exp := m.apply(op)
+		if exp.newBuf != nil && len(exp.newBuf.data) > 128 {
+			// results keep being checked in full as step results, but big ones are not operated on further (sizes would
+			// grow eightfold per conversion step)
+			op.res, op.resBuf = -1, -1
+		}
 		// advance the generation-time model the way a fault-free run does
 		if op.res >= 0 {
 			nv := exp.newView
@@ -1304,6 +1313,18 @@ func (e *bufsim) Run(t *core.Tape, want bool) *core.Result {
 	nf := 1 + S.Draw(2)
 	for j := 0; j < nf; j++ {
 		at := S.Draw(len(p1.probes))
+		if S.Draw(3) == 2 {
+			// prefer a species-constructor invocation when the run has one
+			var sp []int
+			for i, p := range p1.probes {
+				if p.species {
+					sp = append(sp, i)
+				}
+			}
+			if len(sp) > 0 {
+				at = sp[S.Draw(len(sp))]
+			}
+		}
 		f := &bfault{at: at, param: 0}
 		if p1.probes[at].species {
 			f.kind = S.Draw(nBufFaults)
@@ -1328,11 +1349,18 @@ func (e *bufsim) Run(t *core.Tape, want bool) *core.Result {
 func init() {
 	core.Register(&core.Spec{
 		Property: "C17", EngineName: "bufsim",
-		New:       func(tier string) core.Engine { return &bufsim{tier: tier} },
+		New: func(tier string) core.Engine {
+			// a worker process runs this single-goroutine engine only: more Ps just add GC thread contention between the
+			// 16 worker processes (measured: 2x throughput with 1 P)
+			if os.Getenv("BUFSIM_KEEP_GOMAXPROCS") == "" {
+				runtime.GOMAXPROCS(1)
+			}
+			return &bufsim{tier: tier}
+		},
 		QuickRuns: 40000, QuickCapS: 60, ThoroughRun: 2000000, ThoroughCap: 1200,
 		Rule: "a case = (1-3 ArrayBuffers of 0-64 bytes in guard-paged Go slabs or JS-allocated, 1-5 initial views of the 11 element types / DataViews, a sequence of 1-25 operations with probe-object arguments, a fault schedule); distinct = distinct set of (operation kind, element type, fault kind, callback phase in which the fault fired) tuples of the run; non-trivial = a fault fired inside a callback of a running operation, or (fault-free runs) bytes written by a step were visible through views of >= 2 element types",
-		Real:      realComponents,
-		Stub:      []string{"the Go owner of the ArrayBuffer memory (guard-paged slabs, Detach + revocation, Go-side writes)", "every host native (probe PV, species hooks SC/SB)", "Math.random"},
+		Real: realComponents,
+		Stub: []string{"the Go owner of the ArrayBuffer memory (guard-paged slabs, Detach + revocation, Go-side writes)", "every host native (probe PV, species hooks SC/SB)", "Math.random"},
 		Assumptions: []string{
 			"the value clause (NumericToRawBytes/RawBytesToNumeric) is checked on the boundary-class values the workload writes, not swept over all values",
 			"NaN payloads are not compared (any NaN bit pattern is accepted where the model stores NaN)",
